@@ -33,6 +33,7 @@ type input struct {
 	ExpectV uint32
 	Req     api.CoreFeatures // (only with Valid)
 	AllFS   bool             // compile on the optimizing compiler under every accepting feature set
+	ExecAllFS bool           // ... and execute on both engines under every accepting feature set (not only the first)
 	ArgSets int              // 1 = zero arguments only, 3 = zero + two boundary vectors
 	// structured meta for the crash set
 	Field, Val int
@@ -47,6 +48,7 @@ type plan struct {
 	famC    []famMod  // lazily built, see family()
 	deadC   []famMod  // lazily built, see deadCode()
 	dimmC   []famMod  // lazily built, see deadImm()
+	segC    []segMod  // lazily built, see segKinds()
 	crash   map[string]bool // "seed/field/val" of single deviations that killed the process
 	rawMax  int
 	famStep int
@@ -115,6 +117,13 @@ func (p *plan) deadImm() []famMod {
 		p.dimmC = buildDeadImm()
 	}
 	return p.dimmC
+}
+
+func (p *plan) segKinds() []segMod {
+	if p.segC == nil {
+		p.segC = buildSegKinds()
+	}
+	return p.segC
 }
 
 func (p *plan) deadCode() []famMod {
@@ -215,6 +224,7 @@ func (p *plan) allChunks(phase int) []chunk {
 		cs = append(cs, chunk{Cat: "deadimm", A: lo, B: hi})
 	}
 	cs = append(cs, chunk{Cat: "nodep"})
+	cs = append(cs, chunk{Cat: "segkinds"})
 	for lo := 0; lo < len(p.deadCode()); lo += p.famStep {
 		hi := lo + p.famStep
 		if hi > len(p.deadCode()) {
@@ -370,6 +380,10 @@ func (p *plan) expand(c chunk, yield func(in input)) {
 		for _, m := range buildNoDep() {
 			yield(input{B: m.B, Tag: "nodep:" + m.Name, ArgSets: 3})
 		}
+	case "segkinds":
+		for _, m := range p.segKinds() {
+			yield(input{B: m.B, Tag: "family:" + m.Name, Valid: m.Valid, Req: m.Req, ExpectF: m.ExpectF, ExpectV: 1, AllFS: true, ExecAllFS: true, ArgSets: 1})
+		}
 	case "dropdep":
 		// remove a definition that instructions or other sections depend on, leaving the code section
 		// untouched: every whole section except type / function / code, and every single entry of the
@@ -406,7 +420,7 @@ func (p *plan) expand(c chunk, yield func(in input)) {
 		}
 	case "valid-seed":
 		for _, s := range p.seeds {
-			yield(input{B: s.B, Tag: "seed:" + s.Name, Valid: true, Req: s.Req, AllFS: true, ArgSets: 3})
+			yield(input{B: s.B, Tag: "seed:" + s.Name, Valid: true, Req: s.Req, AllFS: true, ExecAllFS: true, ArgSets: 3})
 		}
 	case "valid-fam":
 		for k := c.A; k < c.B; k++ {
@@ -431,6 +445,7 @@ func (p *plan) expand(c chunk, yield func(in input)) {
 			Valid    bool
 			Req      uint64
 			ArgSets  int
+			ExecAll  bool
 		}
 		json.Unmarshal(b, &list)
 		for _, e := range list {
@@ -439,7 +454,7 @@ func (p *plan) expand(c chunk, yield func(in input)) {
 			if as == 0 {
 				as = 3
 			}
-			in := input{B: raw, Tag: e.Tag, ArgSets: as, Valid: e.Valid, Req: api.CoreFeatures(e.Req), Reject: e.Reject, ExpectF: e.ExpectF, ExpectV: e.ExpectV}
+			in := input{B: raw, Tag: e.Tag, ArgSets: as, Valid: e.Valid, Req: api.CoreFeatures(e.Req), Reject: e.Reject, ExpectF: e.ExpectF, ExpectV: e.ExpectV, AllFS: e.ExecAll, ExecAllFS: e.ExecAll}
 			if e.Ref != "" {
 				in.Ref, _ = hex.DecodeString(e.Ref)
 			}
